@@ -3,7 +3,7 @@
    the analytic half of C15: measured, no theorem.  Statements only. *)
 From Coq Require Import QArith.
 From DS Require Import Base.Prelude Base.TDigestBits Model.TDigest Model.TDigestCodec Spec.TDigestSpec.
-From DS Require Import Proofs.TDigestCodec Proofs.TDigestProofsInproc.
+From DS Require Import Proofs.TDigestCodec Proofs.TDigestProofsInproc Proofs.TDigestProofsReach.
 
 Theorem c18_tdigest_image_size : forall s, b_buf s = [] ->
   length (tdb_enc s) =
@@ -15,6 +15,13 @@ Proof. exact tdb_image_size. Qed.
    from the source) *)
 Theorem c18_tdigest_buffer_bound : forall h d, reach h d -> inprocess h -> (Z.of_nat (length (td_buf d)) <= buf_limit (td_k d))%Z.
 Proof. exact buffer_bound. Qed.
+
+(* ... and after ANY update the bound holds again, whatever the history started from: a decoded image may
+   announce more buffered values than the capacity (image_ok allows any buffer length); the first update
+   compresses it (repair 5ca8d9c: update used `==` and never compressed such a buffer) *)
+Theorem c18_tdigest_buffer_bound_after_update : forall h x d, reach (HUpd h x) d ->
+  (Z.of_nat (length (td_buf d)) <= buf_limit (td_k d))%Z.
+Proof. exact buffer_bound_after_update. Qed.
 
 Example c18_tdigest_example : buf_limit 200 = 1640%Z /\ buf_limit 10 = 200%Z.
 Proof. split; reflexivity. Qed.
